@@ -10,7 +10,7 @@ Ltac delta_cases := unfold conn_delta; cbv zeta; repeat break_inner;
 (* the security parameters C13 lists: suite, EMS, EtM, server name, authenticated client identity *)
 Definition same_security (a b : sess) : Prop :=
   s_suite a = s_suite b /\ s_ems a = s_ems b /\ s_etm a = s_etm b /\ s_sni a = s_sni b /\
-  s_ccert a = s_ccert b /\ s_ms a = s_ms b.
+  s_ccert a = s_ccert b /\ s_srp a = s_srp b /\ s_ms a = s_ms b.
 
 Definition ideal_aead (blob : Type) (seal : Z -> Z -> payload -> blob) (open : Z -> blob -> option payload)
            (tamper : blob -> Z -> blob) (junk : Z -> blob) : Prop :=
@@ -176,7 +176,7 @@ Proof.
     destruct (inv_issued _ _ _ _ _ HI srv k p Hiss) as [r0 [v0 [R1 [R2 [R3 P]]]]].
     exists r0, v0. split; [exact R1|]. split; [exact R2|]. split; [exact R3|].
     split; [|intros [H|[k' H]]; discriminate].
-    destruct P as [P1 [P2 [P3 [P4 [P5 [P6 [P7 [P8 P9]]]]]]]]. unfold same_security. cbn. auto 10.
+    destruct P as [P1 [P2 [P3 [P4 [P5 [P6 [P7 [P8 [P9 P10]]]]]]]]]. unfold same_security. cbn. auto 10.
   - destruct Hpath as [_ [_ [_ [_ [e [A [B _]]]]]]]. apply (FromCache e A B).
 Qed.
 
@@ -211,7 +211,7 @@ Proof.
     as [srv Hiss].
   destruct (inv_issued _ _ _ _ _ HI srv k p Hiss) as [r0 [v0 [R1 [R2 [R3 P]]]]].
   exists r0, v0. split; [exact R1|]. split; [exact R2|]. split; [exact R3|].
-  destruct P as [P1 [P2 [P3 [P4 [P5 [P6 [P7 [P8 P9]]]]]]]].
+  destruct P as [P1 [P2 [P3 [P4 [P5 [P6 [P7 [P8 [P9 P10]]]]]]]]].
   rewrite E1, E2, E5. repeat split; congruence.
 Qed.
 
@@ -375,6 +375,37 @@ Proof.
     + rewrite (no_misread w cp h used 0 HI CO (or_introl eq_refl)). reflexivity.
 Qed.
 
+(* ---- completeness of ticket acceptance (honest offer resumes) -------------------------------------- *)
+Lemma try_decrypt_seal keys k n p :
+  In k keys -> try_decrypt blob open keys (seal k n p) = Some (k, p).
+Proof.
+  induction keys as [|k0 ks IH]; [intros []|]. intros Hin. cbn [try_decrypt].
+  destruct (Z.eq_dec k0 k) as [->|Hne].
+  - rewrite open_seal. reflexivity.
+  - rewrite (open_other_key k k0 n p (fun E => Hne (eq_sym E))).
+    destruct Hin as [E|Hin]; [contradiction|apply IH; exact Hin].
+Qed.
+
+(* A ticket sealed under a current key, within its lifetime, whose suite is still acceptable, offered with
+   a ClientHello consistent with it (suite offered; SRP user, server name, EtM, EMS as in the session -- for
+   an SRP session this needs the user name that tickets carry since /repo 19b1cb2) is accepted: the server
+   resumes exactly the session of the payload, in particular with its SRP user name.  (Server without a
+   SessionCache; with one the cached object may be used instead, see ByBoth.) *)
+Theorem honest_ticket_offer_resumes cfg st acc (h : hello blob) now k n p :
+  h_ticket h = Some (seal k n p) -> In k (sv_keys cfg) -> now <= p_created p + sv_life cfg ->
+  sv_usecache cfg = false ->
+  zmem (p_suite p) acc = true -> hello_consistent (sess_of_payload p (h_sid h)) h ->
+  server_try_resume blob open cfg st acc h now = (st, SResume (sess_of_payload p (h_sid h)) (ByTicket k)) /\
+  s_srp (sess_of_payload p (h_sid h)) = p_srp p.
+Proof.
+  intros HT K L U A C. split; [|reflexivity].
+  unfold server_try_resume. rewrite HT. rewrite orb_true_r.
+  unfold ticket_to_session. rewrite (try_decrypt_seal _ _ _ _ K).
+  replace (p_created p + sv_life cfg <? now) with false by (symmetry; apply Z.ltb_ge; exact L).
+  rewrite U. cbn [andb]. cbn [s_suite sess_of_payload]. rewrite A. cbn [negb].
+  rewrite (consistency_complete blob _ (ByTicket k) h C). reflexivity.
+Qed.
+
 End Thms.
 
 (* ---- the symbolic AEAD satisfies the hypotheses; witnesses of the refuted statements ------------ *)
@@ -479,29 +510,29 @@ Proof.
   split; [vm_compute; discriminate|]. vm_compute. reflexivity.
 Qed.
 
-(* SRP sessions and tickets (open finding fallback-broken:ticket-tls12-srp:server-alert-40): the ticket
-   payload has no SRP user name, the session rebuilt from it has none, and the consistency check aborts an
-   honest client that offers its own SRP session.  History: [SRP handshake of user 1 with ticket; close];
-   the same client offers the session: handshake_failure from the server. *)
+(* SRP sessions and tickets.  Before /repo 19b1cb2 the ticket payload had no SRP user name, the session
+   rebuilt from it had none, and the consistency check aborted an honest client that offered its own SRP
+   session (finding fallback-broken:ticket-tls12-srp:server-alert-40; this history ended with the server's
+   handshake_failure).  Now the same offer resumes with the user name preserved. *)
 Definition wit_cp_srp (offer : option Z) : cparams :=
   {| cp_srv := 0; cp_maxv := 3; cp_suites := [49185; 49182]; cp_ems := true; cp_etm := true; cp_sni := 1;
      cp_srp := 1; cp_ccert := 0; cp_offer := offer; o_acc := [49185; 49182]; o_fsuite := 49185; o_fcbc := true;
      o_fhash := 256; o_falert := 40 |}.
 Definition wit_srp_history : list event := [EConn (wit_cp_srp None); EClose 0 0].
 
-Lemma srp_ticket_offer_aborts_witness :
+Lemma srp_ticket_offer_resumes_witness :
   let w := srun [wit_cfg 3 [1] 400] wit_srp_history in
   let cp := wit_cp_srp (Some 0) in
-  exists sv h used b p,
+  exists sv h used b p s,
     zget (w_servers w) 0 = Some sv /\
     client_offer sblob cp (offered sblob w cp) (w_now w) (w_fresh w) = Offer sblob h used /\
-    h_ticket h = Some b /\ sopen 1 b = Some p /\ In 1 (sv_keys (sv_cfg sv)) /\
-    w_now w <= p_created p + sv_life (sv_cfg sv) /\ h_srp h = 1 /\
-    r_out (d_log sblob (conn_delta sblob Sealed sopen w cp sv)) = OAbortS handshake_failure.
+    h_ticket h = Some b /\ sopen 1 b = Some p /\ h_srp h = 1 /\
+    r_out (d_log sblob (conn_delta sblob Sealed sopen w cp sv)) = ODone true true /\
+    r_sview (d_log sblob (conn_delta sblob Sealed sopen w cp sv)) = Some s /\ s_srp s = 1.
 Proof.
-  cbv zeta. do 5 eexists.
+  cbv zeta. do 6 eexists.
   split; [vm_compute; reflexivity|]. split; [vm_compute; reflexivity|]. split; [vm_compute; reflexivity|].
-  split; [vm_compute; reflexivity|]. split; [vm_compute; auto|]. split; [vm_compute; discriminate|].
+  split; [vm_compute; reflexivity|]. split; [vm_compute; reflexivity|]. split; [vm_compute; reflexivity|].
   split; vm_compute; reflexivity.
 Qed.
 
